@@ -1758,3 +1758,23 @@ int hwloc_bitmap_compare_inclusion(const struct hwloc_bitmap_s * set1, const str
 
 	return result;
 }
+
+#ifdef HWLOC_VERIF
+/* verification hook (see include/private/verif.h): expose the internal representation */
+int hwloc_verif_bitmap_repr(const struct hwloc_bitmap_s *set,
+			    unsigned *countp, unsigned *allocatedp, int *infinitep,
+			    const unsigned long **ulongsp)
+{
+  if (!set)
+    return -1;
+  if (countp)
+    *countp = set->ulongs_count;
+  if (allocatedp)
+    *allocatedp = set->ulongs_allocated;
+  if (infinitep)
+    *infinitep = set->infinite;
+  if (ulongsp)
+    *ulongsp = set->ulongs;
+  return 0;
+}
+#endif /* HWLOC_VERIF */
